@@ -123,12 +123,81 @@ class C32(Check):
         ops.append("a")
         return "%s %d %d %d | %s" % ("seqh" if handle else "seq", bits, hint, maxbits, " ".join(ops))
 
+    # ---- T-sched ---------------------------------------------------------------
+    def schedule(self, r, nt, est):
+        """est = rough number of steps the threads need"""
+        kind = r.below(7)
+        if kind == 0:        # one thread after the other
+            return [t for t in r.shuffle(range(nt)) for _ in range(est // nt + 8)]
+        if kind == 1:        # round robin (forward or backward)
+            order = list(range(nt)) if r.chance(1, 2) else list(reversed(range(nt)))
+            return [t for _ in range(est // nt + 4) for t in order]
+        if kind == 2:        # bursts: a thread runs a few steps, then another
+            s = []
+            while len(s) < est:
+                s += [r.below(nt)] * r.range(1, 9)
+            return s
+        if kind == 3:        # everybody enters (read lock, bucket lock ...) before anyone goes on
+            d = r.range(1, 6)
+            return [t for t in range(nt) for _ in range(d)] + [r.below(nt) for _ in range(est)]
+        if kind == 4:        # one thread is held back in the middle of its operation while the others run
+            slow = r.below(nt)
+            s = [slow] * r.range(1, 12)
+            others = [t for t in range(nt) if t != slow] or [slow]
+            s += [r.pick(others) for _ in range(r.range(10, est))]
+            return s + [r.below(nt) for _ in range(est // 2)]
+        return [r.below(nt) for _ in range(r.range(0, est))]
+
+    def sched_case(self, r):
+        pool = self.key_pool(r)
+        bits = r.range(1, 3)
+        hint = r.pick([1, 1, 1, 2, 0, 3])
+        maxbits = r.pick([10, 9, bits + r.range(1, 4), 8])
+        nt = r.pick([2, 2, 3, 3, 4, 5, 6, 8, r.range(1, 16)])
+        owner = {k: r.below(nt) for k in pool}
+        # preparation: some keys are already stored, spread over several generations of tables
+        live, nv, pre = {}, 0, []
+        for k in r.shuffle(pool)[:r.range(0, min(len(pool), 14))]:
+            nv += 1
+            live[k] = nv
+            pre.append("i %d %d" % (k, nv))
+            if r.chance(1, 8):
+                pre.append("f %d" % r.pick(sorted(live)))
+        belief = [set(k for k in live if owner[k] == t) for t in range(nt)]
+        # a few keys get most of the traffic
+        focus = r.shuffle(pool)[:r.range(2, 6)]
+        thr, total = [], 0
+        for t in range(nt):
+            ops = []
+            for _ in range(r.range(1, 5 if nt <= 6 else 3)):
+                k = r.pick(focus) if r.chance(2, 3) else r.pick(pool)
+                x = r.below(10)
+                mine = [q for q in pool if owner[q] == t and q not in belief[t]]
+                if x < 3 and mine:
+                    mk = [q for q in mine if q in focus] or mine
+                    k = r.pick(mk)
+                    nv += 1
+                    belief[t].add(k)
+                    ops.append("i %d %d" % (k, nv))
+                elif x < 7:
+                    ops.append("f %d" % k)
+                else:
+                    belief[t].discard(k)      # nobody but its owner inserts a key: after this remove the owner knows it is absent
+                    ops.append("r %d" % k)
+            total += len(ops)
+            thr.append(" ".join(ops))
+        est = total * 14 + 10
+        sc = self.schedule(r, nt, est)
+        return "sched %d %d %d | %s | %s | %s" % (bits, hint, maxbits, " ".join(pre), " / ".join(thr), " ".join(map(str, sc)))
+
     def cases(self):
         r = self.rng
         out = []
         n = 600 if self.tier == "quick" else 12000
         for _ in range(n):
             out.append(self.seq_case(r))
+        for _ in range(n):
+            out.append(self.sched_case(r))
         return out
 
     def nontrivial_key(self, case):
@@ -220,6 +289,95 @@ class C32(Check):
             return "operation sequence did not complete (%d of %d tokens)" % (j, len(ops))
         return None
 
+    # linearizability of the observed history.  A map is a product of independent objects, one per
+    # key, and linearizability is local (Herlihy & Wing): the history is linearizable iff its
+    # projection on every key is.  One key: state absent / present(v).
+    @staticmethod
+    def lin_key(init, evs, final_present):
+        """evs: list of (op, value_or_None, result, inv, resp); search an order that respects real time"""
+        n = len(evs)
+        memo = set()
+
+        def go(done, state):
+            if done == (1 << n) - 1:
+                return (state is not None) == final_present
+            if (done, state) in memo:
+                return False
+            memo.add((done, state))
+            for i in range(n):
+                if done >> i & 1:
+                    continue
+                # i may come next only if no other pending operation returned before i was invoked
+                if any(not (done >> j & 1) and j != i and evs[j][4] < evs[i][3] for j in range(n)):
+                    continue
+                op, v, res = evs[i][0], evs[i][1], evs[i][2]
+                if op == "i":
+                    if state is not None:
+                        continue            # insert of a present key: excluded by the generator's ownership rule
+                    if go(done | 1 << i, v):
+                        return True
+                elif op == "f":
+                    if res == state and go(done | 1 << i, state):
+                        return True
+                else:
+                    if res == state and go(done | 1 << i, None):
+                        return True
+            return False
+        return go(0, init)
+
+    def oracle_sched(self, case, obs):
+        f = [x.strip() for x in case.split("|")]
+        pre = f[1].split()
+        init, j = {}, 0
+        while j < len(pre):
+            if pre[j] == "i":
+                init[int(pre[j + 1])] = int(pre[j + 2])
+                j += 3
+            else:
+                j += 2
+        nt = len(f[2].split("/"))
+        o = [x.strip() for x in obs.split(" | ")]
+        if len(o) < nt + 1:
+            return "unparsable observation " + obs[:80]
+        per_key = {}
+        for t in range(nt):
+            toks = o[t].split()
+            if not toks or toks[0] != "t%d:" % t:
+                return "unparsable thread field " + o[t][:60]
+            want = f[2].split("/")[t].split()
+            vals = [int(want[q + 2]) for q in range(len(want)) if want[q] == "i"]
+            for tok in toks[1:]:
+                m = re.match(r"^(i|f|r):(\d+):([-.?\d]+)@(-?\d+)-(-?\d+)$", tok)
+                if not m:
+                    return "unparsable event " + tok
+                if m.group(3) == "?":
+                    return "operation %s %s of thread %d did not return" % (m.group(1), m.group(2), t)
+                op, k = m.group(1), int(m.group(2))
+                res = None if m.group(3) in ("-", ".") else int(m.group(3))
+                v = vals.pop(0) if op == "i" else None
+                per_key.setdefault(k, []).append((op, v, res, int(m.group(4)), int(m.group(5))))
+        dump = self.parse_dump(o[nt])
+        if dump is None:
+            return "unparsable dump " + o[nt][:60]
+        stored = {}
+        for (bits, used, bk) in dump:
+            for i, (ln, keys) in bk.items():
+                if i >= (1 << bits):
+                    return "bucket %d outside a table of %d bits" % (i, bits)
+                for k in keys:
+                    if k in stored:
+                        return "key %d is stored twice at the end (tables of %d and %d bits)" % (k, stored[k], bits)
+                    stored[k] = bits
+        for k in set(per_key) | set(init) | set(stored):
+            evs = per_key.get(k, [])
+            if len(evs) > 14:
+                continue
+            if not self.lin_key(init.get(k), evs, k in stored):
+                return ("history of key %d is not linearizable as a map entry (initially %s, finally %s): %s"
+                        % (k, init.get(k), "stored" if k in stored else "absent",
+                           " ".join("%s%s=%s@%d-%d" % (e[0], "" if e[1] is None else "(%d)" % e[1], e[2], e[3], e[4]) for e in evs)))
+        return None
+
     def oracle(self, case, obs):
         if "<deadlock>" in obs:
             return "operations did not complete (deadlock)"
@@ -227,10 +385,12 @@ class C32(Check):
             return "the implementation crashed or printed nothing: " + obs[:80]
         if case.startswith("seq"):
             return self.oracle_seq(case, obs)
+        if case.startswith("sched"):
+            return self.oracle_sched(case, obs)
         return None
 
     def signature(self, case, obs):
         why = self.oracle(case, obs) or ""
         kind = ("deadlock" if "deadlock" in why else "lost" if "in no bucket" in why else "dup" if "twice" in why
-                else "stale" if "not live" in why else "forall" if "for_all" in why else "result" if "returned" in why else "other")
+                else "stale" if "not live" in why else "nonlin" if "not linearizable" in why else "noreturn" if "did not return" in why else "forall" if "for_all" in why else "result" if "returned" in why else "other")
         return case.split()[0] + "-" + kind
